@@ -44,6 +44,9 @@ type SOp struct {
 	Op   string `json:"op"`   // connect | agent | listener | exc2 | leave
 	Conn int    `json:"conn"` // connection slot
 	Name string `json:"name,omitempty"`
+	// exc2: the endpoint, drawn independently of the name ("" = one derived from the name,
+	// as older replays have it)
+	Endpoint string `json:"endpoint,omitempty"`
 }
 
 // CaseC is a history over connection slots.  The first NConn slots are connected up
@@ -105,7 +108,7 @@ func genC(t *rapid.T) CaseC {
 		case "listener":
 			op = SOp{Op: "listener", Conn: rapid.SampledFrom(onSlots).Draw(t, "slot"), Name: rapid.SampledFrom(listenerPool).Draw(t, "ln")}
 		case "exc2":
-			op = SOp{Op: "exc2", Conn: rapid.SampledFrom(onSlots).Draw(t, "slot"), Name: rapid.SampledFrom(exc2Pool).Draw(t, "xn")}
+			op = SOp{Op: "exc2", Conn: rapid.SampledFrom(onSlots).Draw(t, "slot"), Name: rapid.SampledFrom(exc2Pool).Draw(t, "xn"), Endpoint: genEndpoint(t)}
 		case "leave":
 			op = SOp{Op: "leave", Conn: rapid.SampledFrom(onSlots).Draw(t, "slot")}
 			delete(on, op.Conn)
@@ -131,6 +134,7 @@ func (c CaseC) slots() int {
 }
 
 type item struct {
+	ep    string // exc2 only: its endpoint
 	name  string
 	owner int // -1: left over from a connection that is gone
 }
@@ -161,7 +165,37 @@ type snapC struct {
 	agents, listeners, exc2, endpoints []string
 }
 
-// endpointOf: distinct names get distinct endpoints (hex of the name).
+func (o SOp) endpoint() string {
+	if o.Endpoint == "" {
+		return endpointOf(o.Name)
+	}
+	return realEndpoint(o.Endpoint)
+}
+
+func withoutStr(xs []string, x string) []string {
+	var o []string
+	for _, y := range xs {
+		if y != x {
+			o = append(o, y)
+		}
+	}
+	return o
+}
+
+func setStr(xs []string) string {
+	m := map[string]bool{}
+	for _, x := range xs {
+		m[x] = true
+	}
+	var o []string
+	for x := range m {
+		o = append(o, fmt.Sprintf("%q", x))
+	}
+	sort.Strings(o)
+	return strings.Join(o, ",")
+}
+
+// endpointOf: the endpoint of older replays (hex of the name).
 func endpointOf(name string) string { return "ep-" + hex.EncodeToString([]byte(name)) }
 
 func snapshotC(ts *server.Teamserver) snapC {
@@ -227,7 +261,7 @@ func callEndpoint(ts *server.Teamserver, endpoint string, body []byte) (code int
 	go func() {
 		rr := httptest.NewRecorder()
 		ctx, _ := gin.CreateTestContext(rr)
-		req := httptest.NewRequest(http.MethodPost, "/"+endpoint, bytes.NewReader(body))
+		req := httptest.NewRequest(http.MethodPost, "/probe", bytes.NewReader(body)) // the route function does not look at the path
 		req.RemoteAddr = "10.9.8.7:40000"
 		ctx.Request = req
 		fn(ctx)
@@ -322,13 +356,14 @@ func checkC(c CaseC) *core.Violation {
 		s := snapshotC(ts)
 		var eps []string
 		for _, x := range m.exc2 {
-			eps = append(eps, endpointOf(x.name))
+			eps = append(eps, x.ep)
 		}
 		for _, p := range []struct{ what, got, want string }{
 			{"agent-types", strings.Join(s.agents, ","), namesOf(m.agents)},
 			{"listener-kinds", strings.Join(s.listeners, ","), namesOf(m.listeners)},
 			{"exc2-listeners", strings.Join(s.exc2, ","), namesOf(m.exc2)},
-			{"exc2-endpoints", strings.Join(s.endpoints, ","), strings.Join(eps, ",")},
+			// as sets: on a tree that lets two listeners share an endpoint there is one route for both
+			{"exc2-endpoints", setStr(s.endpoints), setStr(withoutStr(eps, "opext"))},
 		} {
 			if p.got != p.want {
 				return core.V("svc|register|"+p.what+"|after-"+kind, "%s: registry %s holds [%s], the registrations so far amount to [%s]", when, p.what, p.got, p.want)
@@ -385,7 +420,7 @@ func checkC(c CaseC) *core.Violation {
 					if v := col.add(core.V(sig, "%s: connection %d left, but its %s %q is still registered", step, id, kind, x.name)); v != nil {
 						return nil, v
 					}
-					keep = append(keep, item{x.name, -1})
+					keep = append(keep, item{name: x.name, owner: -1, ep: x.ep})
 				case x.owner == id:
 					seenOwn++
 				case !present:
@@ -419,8 +454,42 @@ func checkC(c CaseC) *core.Violation {
 		if m.exc2, v = sweep("exc2-listener", m.exc2, s.exc2, ident); v != nil {
 			return v
 		}
-		if _, v = sweep("exc2-endpoint", exc2Before, s.endpoints, endpointOf); v != nil {
-			return v
+		// routes: every ExC2 listener that is still listed must still be routed, and a route
+		// nobody listed uses must be gone (the operator's own route is judged below)
+		for _, x := range m.exc2 {
+			if x.ep != "opext" && !in(s.endpoints, x.ep) {
+				kind := "exc2-endpoint-of-other-connection-lost"
+				if x.owner < 0 {
+					continue
+				}
+				return core.V("svc|disconnect|"+kind, "%s: connection %d left and the route %q of ExC2 listener %q (connection %d, still connected) went with it", step, id, x.ep, x.name, x.owner)
+			}
+		}
+		for _, e := range s.endpoints {
+			used := false
+			for _, x := range m.exc2 {
+				used = used || x.ep == e
+			}
+			if !used {
+				mine := false
+				for _, x := range exc2Before {
+					mine = mine || (x.owner == id && x.ep == e)
+				}
+				sig := "svc|disconnect|exc2-endpoint-appeared"
+				if mine {
+					sig = "svc|disconnect|exc2-endpoint-leftover"
+				}
+				if v := col.add(core.V(sig, "%s: after connection %d left the route %q is still there although no listed ExC2 listener uses it", step, id, e)); v != nil {
+					return v
+				}
+			}
+		}
+		opRouted := false
+		for _, e := range ts.Endpoints {
+			opRouted = opRouted || e.Endpoint == "opext"
+		}
+		if !opRouted {
+			return core.V("svc|disconnect|operator-endpoint-lost", "%s: the route of the External listener started by the operator side is gone after connection %d left", step, id)
 		}
 		if len(find(ts, svcx.OpExt)) != 1 {
 			return core.V("svc|disconnect|operator-listener-lost", "%s: the External listener started by the operator side is gone after connection %d left", step, id)
@@ -442,7 +511,7 @@ func checkC(c CaseC) *core.Violation {
 			routes := []string{"opext"}
 			for _, x := range m.exc2 {
 				if x.owner >= 0 {
-					routes = append(routes, endpointOf(x.name))
+					routes = append(routes, x.ep)
 				}
 			}
 			for _, ep := range routes {
@@ -470,14 +539,14 @@ func checkC(c CaseC) *core.Violation {
 				}
 				marker++
 				body, _ := agentRequest(0x7a7a7a7a, marker)
-				code, _, found, done := callEndpoint(ts, endpointOf(x.name), body)
+				code, _, found, done := callEndpoint(ts, x.ep, body)
 				switch {
 				case !found:
-					return core.V("svc|disconnect|surviving-exc2-endpoint-gone", "%s: the endpoint %q of ExC2 listener %q (connection %d, still connected) is not routed any more", step, endpointOf(x.name), x.name, x.owner)
+					return core.V("svc|disconnect|surviving-exc2-endpoint-gone", "%s: the endpoint %q of ExC2 listener %q (connection %d, still connected) is not routed any more", step, x.ep, x.name, x.owner)
 				case !done:
-					return core.V("svc|disconnect|surviving-relay-hangs", "%s: a request into the surviving ExC2 endpoint %q was never answered", step, endpointOf(x.name))
+					return core.V("svc|disconnect|surviving-relay-hangs", "%s: a request into the surviving ExC2 endpoint %q was never answered", step, x.ep)
 				case code != 404:
-					return core.V("svc|disconnect|surviving-exc2-endpoint-broken", "%s: a request with an unregistered magic value into the surviving ExC2 endpoint %q got %d, want 404", step, endpointOf(x.name), code)
+					return core.V("svc|disconnect|surviving-exc2-endpoint-broken", "%s: a request with an unregistered magic value into the surviving ExC2 endpoint %q got %d, want 404", step, x.ep, code)
 				}
 			}
 		}
@@ -540,7 +609,7 @@ func checkC(c CaseC) *core.Violation {
 				return inconclusive("barrier: %v", err)
 			}
 			if !has(m.agents, op.Name) {
-				m.agents = append(m.agents, item{op.Name, id})
+				m.agents = append(m.agents, item{name: op.Name, owner: id})
 			}
 		case "listener":
 			cl.RegisterListener(op.Name, "SvcAgent")
@@ -548,19 +617,29 @@ func checkC(c CaseC) *core.Violation {
 				return inconclusive("barrier: %v", err)
 			}
 			if !has(m.listeners, op.Name) {
-				m.listeners = append(m.listeners, item{op.Name, id})
+				m.listeners = append(m.listeners, item{name: op.Name, owner: id})
 			}
 		case "exc2":
-			ok, _, err := cl.AddExC2(op.Name, endpointOf(op.Name))
+			ep := op.endpoint()
+			ok, _, err := cl.AddExC2(op.Name, ep)
 			if err != nil {
 				return inconclusive("exc2: %v", err)
 			}
-			want := !has(m.exc2, op.Name)
-			if ok != want {
-				return core.V("svc|register|exc2-verdict", "%s: the teamserver answered Success=%v, the name is taken=%v", step, ok, !want)
+			nameFree := !has(m.exc2, op.Name)
+			epFree := ep != "opext"
+			for _, x := range m.exc2 {
+				epFree = epFree && x.ep != ep
 			}
-			if want {
-				m.exc2 = append(m.exc2, item{op.Name, id})
+			switch {
+			case ok && !nameFree:
+				return core.V("svc|register|exc2-verdict", "%s: the teamserver answered Success=true although the name is taken", step)
+			case !ok && nameFree && epFree:
+				return core.V("svc|register|exc2-verdict", "%s: the teamserver answered Success=false although neither the name nor the endpoint %q is taken", step, ep)
+			}
+			// name free, endpoint taken: refusing it (nothing stored) and taking it (listed AND
+			// routed) are both consistent; which one it was is read from the answer
+			if ok {
+				m.exc2 = append(m.exc2, item{name: op.Name, owner: id, ep: ep})
 			}
 		case "leave":
 			if v := leave(op.Conn, step); v != nil {
@@ -605,6 +684,7 @@ func classifyC(c CaseC) core.Class {
 	owners := map[string]int{} // kind/name -> connection id
 	perConn := map[int]int{}
 	exc2Of := map[int]int{}
+	epOwners := map[string]int{}
 	dups, nonLast, leaves, rejoin, lateLeave := 0, 0, 0, 0, 0
 	joinedAfterLeave := map[int]bool{}
 	leave := func(slot int) {
@@ -672,6 +752,18 @@ func classifyC(c CaseC) core.Class {
 			leave(op.Conn)
 		default:
 			cl.Labels = append(cl.Labels, "register:"+op.Op)
+			if op.Op == "exc2" {
+				cl.Labels = append(cl.Labels, "exc2-endpoint:"+endpointClass(op.Endpoint))
+				for k, o := range epOwners {
+					if k == op.endpoint() && o != id {
+						cl.Labels = append(cl.Labels, "exc2-endpoint:shared-with-another-connection")
+					}
+				}
+				if op.endpoint() == "opext" {
+					cl.Labels = append(cl.Labels, "exc2-endpoint:shared-with-operator-listener")
+				}
+				epOwners[op.endpoint()] = id
+			}
 			kinds[op.Op] = true
 			key := op.Op + "/" + op.Name
 			if _, ok := owners[key]; ok {
